@@ -7,8 +7,75 @@ from .terms import Term
 from .mirsym import Float, Unsupported
 
 
+DYADIC = False      # when set, int->float conversions of symbolic integers produce exact fixed-point values (class Dy)
+SCALE = 8           # fractional bits of the fixed-point model
+EXACT = []          # exactness side conditions of the fixed-point model (must be discharged by the caller)
+
+
+def set_dyadic(v, clear=True):
+    global DYADIC
+    DYADIC = bool(v)
+    if clear:
+        del EXACT[:]
+
+
+class Dy:
+    """an f64 known to be the dyadic rational  t / 2^SCALE  (t: signed 64-bit term or int), |value| < 2^40.
+    IEEE double arithmetic is exact on such values as long as every result is again such a value; each operation that
+    could leave the set (division by a power of two) records its exactness condition in EXACT."""
+    __slots__ = ('t',)
+
+    def __init__(self, t):
+        self.t = t
+
+    def __repr__(self):
+        return 'Dy(%r)' % (self.t,)
+
+
+def _dy(x):
+    """float / Dy -> scaled integer (int or term); None if not representable"""
+    if isinstance(x, Dy):
+        return x.t
+    if isinstance(x, float) or isinstance(x, int):
+        v = x * (1 << SCALE)
+        if v != int(v) or abs(v) >= 1 << 60:
+            return None
+        return int(v) & ((1 << 64) - 1)
+    return None
+
+
 def is_sym(x):
     return isinstance(x, Term)
+
+
+def is_integral(x):
+    """width-1: the value is a whole number"""
+    if isinstance(x, Dy):
+        return T.eq(64, T.band(64, x.t, (1 << SCALE) - 1), 0)
+    if not is_sym(x):
+        return 1 if x == math.floor(x) else 0
+    return cmp('eq', x, _node('fp.round', [x]))
+
+
+def same(a, b):
+    """width-1: the two values are the same f64 (structural equality, NaN == NaN)"""
+    if isinstance(a, Dy) or isinstance(b, Dy):
+        return cmp('eq', a, b)
+    if a is b:
+        return 1
+    if not is_sym(a) and not is_sym(b):
+        return 1 if (a == b or (a != a and b != b)) else 0
+    if is_sym(a) and a.op == 'fp.ite':
+        return T.ite(1, a.args[0], same(_unc(a.args[1]), b), same(_unc(a.args[2]), b))
+    if is_sym(b) and b.op == 'fp.ite':
+        return T.ite(1, b.args[0], same(a, _unc(b.args[1])), same(a, _unc(b.args[2])))
+    return T._mk('fpcmp.same', 1, (_f(a), _f(b)))
+
+
+def _unc(t):
+    if is_sym(t) and t.op == 'fp.const':
+        return struct.unpack('<d', struct.pack('<Q', t.val))[0]
+    return t
 
 
 def fvar(name):
@@ -43,6 +110,8 @@ def binop(op, a, b):
     """MIR BinOp on Float values -> Float or width-1 bit-vector"""
     x = a.v if type(a) is Float else a
     y = b.v if type(b) is Float else b
+    if isinstance(x, Dy) or isinstance(y, Dy):
+        return _dy_binop(op, x, y)
     sym = is_sym(x) or is_sym(y)
     if op in ('Add', 'Sub', 'Mul', 'Div', 'Rem'):
         if not sym:
@@ -61,6 +130,10 @@ def binop(op, a, b):
             except OverflowError:
                 return Float(float('inf'))
         name = {'Add': 'fp.add', 'Sub': 'fp.sub', 'Mul': 'fp.mul', 'Div': 'fp.div', 'Rem': 'fp.fmod'}[op]
+        if op == 'Rem' and not is_sym(y) and y > 0 and math.frexp(y)[0] == 0.5:
+            # x % 2^k = x - 2^k * trunc(x / 2^k), every step exact for finite x: avoids the solver's IEEE-remainder circuit
+            q = _node('fp.trunc', [_node('fp.div', [x, y])])
+            return Float(_node('fp.sub', [x, _node('fp.mul', [y, q])]))
         return Float(_node(name, [x, y]))
     if op in ('Eq', 'Ne', 'Lt', 'Le', 'Gt', 'Ge'):
         if not sym:
@@ -76,7 +149,65 @@ def binop(op, a, b):
     raise Unsupported('float binop %s' % op)
 
 
+def _dy_binop(op, x, y):
+    if is_sym(x) or is_sym(y):
+        raise Unsupported('mixing the fixed-point model with FP terms')
+    a, b = _dy(x), _dy(y)
+    if op in ('Add', 'Sub') and (a is None or b is None):
+        raise Unsupported('value %r is outside the fixed-point model' % ((x, y),))
+    if op == 'Add':
+        return Float(Dy(T.add(64, a, b)))
+    if op == 'Sub':
+        return Float(Dy(T.sub(64, a, b)))
+    if op == 'Div' and not isinstance(y, Dy) and y > 0 and math.frexp(y)[0] == 0.5 and y >= 1:
+        k = int(math.log2(y))
+        EXACT.append(T.eq(64, T.band(64, a, (1 << k) - 1), 0))      # result is again a multiple of 2^-SCALE
+        return Float(Dy(T.ashr(64, a, k) if isinstance(a, Term) else ((T._to_signed(a, 64) >> k) & ((1 << 64) - 1))))
+    if op == 'Rem' and not isinstance(y, Dy) and y > 0 and math.frexp(y)[0] == 0.5:
+        k = int(math.log2(y)) + SCALE
+        # value of the remainder keeps the sign of x; only its being zero is ever observed in this crate
+        neg = T.slt(64, a, 0)
+        mag = T.ite(64, neg, T.neg(64, a), a)
+        r = T.band(64, mag, (1 << k) - 1)
+        return Float(Dy(T.ite(64, neg, T.neg(64, r), r)))
+    if op in ('Eq', 'Ne', 'Lt', 'Le', 'Gt', 'Ge') and (a is None or b is None):
+        # comparison with a constant that is not a multiple of 2^-SCALE: compare against the neighbouring grid points
+        from fractions import Fraction
+        if a is None and b is not None and not isinstance(x, Dy):
+            # c OP y  ==  y OP' c
+            flip = {'Lt': 'Gt', 'Le': 'Ge', 'Gt': 'Lt', 'Ge': 'Le', 'Eq': 'Eq', 'Ne': 'Ne'}[op]
+            return _dy_binop(flip, y, x)
+        if b is None and a is not None and not isinstance(y, Dy):
+            c = Fraction(y) * (1 << SCALE)
+            lo = c.numerator // c.denominator          # floor (c is not an integer here)
+            if op == 'Eq':
+                return 0
+            if op == 'Ne':
+                return 1
+            if op in ('Lt', 'Le'):
+                return T.sle(64, a, lo & ((1 << 64) - 1))
+            return T.slt(64, lo & ((1 << 64) - 1), a)
+        raise Unsupported('fixed-point comparison')
+    if a is None or b is None:
+        raise Unsupported('value %r is outside the fixed-point model' % ((x, y),))
+    if op in ('Eq', 'Ne', 'Lt', 'Le', 'Gt', 'Ge'):
+        if op == 'Eq':
+            return T.eq(64, a, b)
+        if op == 'Ne':
+            return T.ne(64, a, b)
+        if op == 'Lt':
+            return T.slt(64, a, b)
+        if op == 'Le':
+            return T.sle(64, a, b)
+        if op == 'Gt':
+            return T.slt(64, b, a)
+        return T.sle(64, b, a)
+    raise Unsupported('fixed-point model: operation %s' % op)
+
+
 def cmp(kind, x, y):
+    if isinstance(x, Dy) or isinstance(y, Dy):
+        return _dy_binop({'eq': 'Eq', 'lt': 'Lt', 'le': 'Le'}[kind], x, y)
     if not is_sym(x) and not is_sym(y):
         return 1 if {'eq': x == y, 'lt': x < y, 'le': x <= y}[kind] else 0
     return T._mk('fpcmp.' + kind, 1, (_f(x), _f(y)))
@@ -84,6 +215,10 @@ def cmp(kind, x, y):
 
 def unop(op, a):
     x = a.v
+    if isinstance(x, Dy):
+        if op == 'Neg':
+            return Float(Dy(T.neg(64, x.t)))
+        raise Unsupported('fixed-point unop %s' % op)
     if op == 'Neg':
         return Float(-x) if not is_sym(x) else Float(_node('fp.neg', [x]))
     raise Unsupported('float unop %s' % op)
@@ -91,6 +226,8 @@ def unop(op, a):
 
 def round_(a):
     x = a.v
+    if isinstance(x, Dy):
+        raise Unsupported('round() in the fixed-point model')
     return Float(rust_round(x)) if not is_sym(x) else Float(_node('fp.round', [x]))
 
 
@@ -101,6 +238,15 @@ def from_int(v, w, signed):
         return Float(float(v))
     if signed:
         raise Unsupported('signed int to float on a symbolic value')
+    if DYADIC:
+        if T.umax(v, w) >= 1 << 40:
+            raise Unsupported('integer too large for the fixed-point model')
+        return Float(Dy(T.shl(64, T.zext(w, 64, v) if w < 64 else v, SCALE)))
+    k = max(8, T.umax(v, w).bit_length())
+    if k < w:
+        v = T.trunc(w, k, v)          # the value fits in k bits: a narrower (cheaper) conversion gives the same float
+        if not isinstance(v, Term):
+            return Float(float(v))
     return Float(T._mk('fp.from_ubv', 64, (v,)))
 
 
@@ -117,6 +263,13 @@ def to_int(a, bits, signed):
 def ite(cond, x, y):
     if not isinstance(cond, Term):
         return x if cond & 1 else y
+    if isinstance(x, Dy) or isinstance(y, Dy) or (DYADIC and not is_sym(x) and not is_sym(y)):
+        a, b = _dy(x), _dy(y)
+        if a is None or b is None:
+            raise Unsupported('merge outside the fixed-point model')
+        if not isinstance(a, Term) and not isinstance(b, Term) and a == b:
+            return x
+        return Dy(T.ite(64, cond, a, b))
     if not is_sym(x) and not is_sym(y) and (x == y or (x != x and y != y)):
         return x
     if x is y:
@@ -132,6 +285,9 @@ def is_finite(x):
 
 def evaluate(x, env, cache=None):
     """concrete value of an FP term / float under env (FP variables by name -> float, BV variables -> int)"""
+    if isinstance(x, Dy):
+        v = T.evaluate(x.t, env) if isinstance(x.t, Term) else x.t
+        return T._to_signed(v, 64) / float(1 << SCALE)
     if not is_sym(x):
         return x
     if cache is None:
@@ -163,6 +319,8 @@ def evaluate(x, env, cache=None):
             r = -a[0]
         elif op == 'fp.round':
             r = rust_round(a[0])
+        elif op == 'fp.trunc':
+            r = float(math.trunc(a[0])) if (a[0] == a[0] and abs(a[0]) != float('inf')) else a[0]
         else:
             raise Unsupported('fp evaluate %s' % op)
     cache[x.id] = r
